@@ -23,36 +23,15 @@ type runner struct{ *gi.Runner }
 func (rn *runner) monitor(s *gi.Session, st *gi.Step) {
 	fs := s.W.CheckAgree(st.Op.Kind, true)
 	for _, f := range fs {
-		sig := f.Sig
-		switch {
-		case s.Tainted[f.IP] != "":
-			sig = s.Tainted[f.IP]
-		case gi.StaleEvent(st):
-			sig = "stale-reserved-watch-event-desyncs-cache"
-			s.Tainted[f.IP] = sig
-		case st.Op.Kind == "arng" && st.Fired && rollbackFault(st):
-			sig = "rollback-delete-fault-leaks-object"
-			s.Tainted[f.IP] = sig
+		if s.Tainted[f.IP] == "env" {
+			rn.R.Hit("skipped:admin-recreated-reservation-before-its-delete-event (EnvOK)")
+			continue
 		}
-		rn.Violation(sig, fmt.Sprintf("after %s (%s, plan %s): %s", st.Op.Kind, st.Class, st.Op.Plan, f.What), s.Src)
+		rn.Violation(f.Sig, fmt.Sprintf("after %s (%s, plan %s): %s", st.Op.Kind, st.Class, st.Op.Plan, f.What), s.Src)
 	}
 }
 
-// rollbackFault: the injected fault hit a delete of the rollback loop.
-func rollbackFault(st *gi.Step) bool {
-	for _, c := range st.Calls {
-		if c.Verb == "delete" && c.Err == "injected" {
-			return true
-		}
-	}
-	return false
-}
-
-func (rn *runner) taintOnly(s *gi.Session, st *gi.Step) {
-	if gi.StaleEvent(st) {
-		rn.monitor(s, st) // taints the address for the rest of this replay
-	}
-}
+func (rn *runner) taintOnly(s *gi.Session, st *gi.Step) {}
 
 // history: generate online (base run), then enumerate faults / crashes for every op from the same prefix.
 func (rn *runner) history(length int) {
